@@ -120,6 +120,38 @@ Theorem po_set_then_get_stored_type : forall s n form v t w d,
 Proof. exact po_set_get_stored. Qed.
 Print Assumptions po_set_then_get_stored_type.
 
+(* "lookups return the last value WRITTEN", not a value equal to it: after setParam(n, v) the parameter holds exactly
+   v's identity (bit pattern / every field), whatever was stored before ... *)
+Theorem po_set_overwrites_exactly : forall s n form v,
+  option_map p_data (po_find (fst (po_step s (PSet n form v))) n) = Some (store_of form v).
+Proof. exact po_set_exact. Qed.
+Print Assumptions po_set_overwrites_exactly.
+
+(* ... in particular when the stored value is ==-equal to the new one but distinguishable from it (+0.0f / -0.0f,
+   a struct whose operator== ignores a field): the overwrite is not dropped *)
+Theorem po_set_overwrites_equal_value : forall s n form old v t,
+  val_eq old v = true -> old <> v -> store_of form v = Some (t, v) ->
+  let s1 := fst (po_step s (PSet n form old)) in
+  option_map p_data (po_find (fst (po_step s1 (PSet n form v))) n) = Some (Some (t, v)) /\
+  option_map p_data (po_find (fst (po_step s1 (PSet n form v))) n) <> option_map p_data (po_find s1 n).
+Proof. exact po_set_exact_over_equal. Qed.
+Print Assumptions po_set_overwrites_equal_value.
+
+(* the same for FlatMap: m[k] = v stores exactly v, and at / operator[] / at const return exactly v *)
+Theorem fm_set_overwrites_exactly : forall m k v,
+  NoDup (map fst m) ->
+  let m' := fst (fm_step m (FSet k v)) in
+  fm_lookup m' k = Some v /\
+  snd (fm_step m' (FAt k)) = OVal v /\ snd (fm_step m' (FIndex k)) = OVal v /\ snd (fm_step m' (FAtC k)) = OVal v.
+Proof. intros m k v ND m'. split; [exact (fm_set_exact m k v ND) | exact (fm_set_then_read m k v ND)]. Qed.
+Print Assumptions fm_set_overwrites_exactly.
+
+Example overwrite_equal_example :
+  val_eq 7 57 = true /\
+  map (fun '(o, _) => o) (snd (po_run [PSet 1 13 7; PSet 1 13 57; PGet 1 7 99])) = [OUnit; OUnit; OVal 57] /\
+  fst (fm_run [FSet 1 7; FSet 1 57]) = [(1, 57)].
+Proof. vm_compute. auto. Qed.
+
 (* an empty Any passed to setParam empties the parameter: every typed read gives the default *)
 Theorem po_set_empty_any_reads_default : forall s n v tag d,
   let s' := fst (po_step s (PSet n 10 v)) in po_step s' (PGet n tag d) = (s', OVal d).
